@@ -24,7 +24,21 @@ claim("C16", "model_checking",
       "WriteSpec/RemoveSpec are actions of the CacheSeq state machine (last directory, created if missing, failure leaves everything unchanged); TLC checks WriteWins; the replay snapshots the whole scratch tree before/after each call and requires exactly one path to change, the content to read back, the devices to resolve there after Refresh and RemoveSpec to delete exactly it.",
       SEQ_NOTE + " The name-generation half (transient ids with '/', '..', extensions) is decided by the SpecName oracle table.", "TLA+ spec CacheSeq (ApiWrite/ApiRemove actions, WriteWins) with TLC; replay with directory-tree snapshots", "5 C16", "cacheseq")
 
+EDIT_NOTE = ("Trusted: the oracle Apply/Compose in spec/Edits.tla (a transcription of SPEC.md and the statement, with its own invariants checked by TLC), "
+             "the projection OciView (harness/editsreplay.go), TLC. env compared as effective map, device nodes as a set keyed by path.")
+claim("C03", "model_checking",
+      "Apply is transcribed into TLA+ from SPEC.md; TLC enumerates every edit list of <=2/<=3 atoms from 31 atoms (env repeats, 7 node shapes incl. host completion, unclean/equal-depth/duplicate mount destinations, six hook stages, GIDs 0/dup, RDT) x 6 initial OCI specs (nil sections, populated, uid/gid zero or not, 15 equal-depth mounts) x 3 host tables, checks the statement's clauses on the oracle itself, and every row is executed on the real Apply/ApplyEdits with mknod-made host nodes and compared field by field, rest of the OCI spec by digest.",
+      EDIT_NOTE, "TLA+ oracle (EditsApply) enumerated by TLC, one implementation test per state, replayed into real ContainerEdits.Apply", "5 C03, 4.3", "edits")
+claim("C02", "model_checking",
+      "Compose(request) is defined over the precedence rule of module Resolve; TLC enumerates 32 cache populations x every ordered selection of distinct resolvable devices x initial OCI specs and multi-step injection histories; the real cache is populated with files whose every edit names its origin and InjectDevices' result is compared with Apply(oci, Compose(request)).",
+      EDIT_NOTE, "TLA+ spec EditsInject (Compose over Resolve) enumerated by TLC; behaviours replayed into real Cache.InjectDevices", "5 C02", "edits")
+claim("C14", "model_checking",
+      "State machine inject / change host nodes / inject: after every step the JSON image of every cached Spec and device (through the query API) must be unchanged, each injection must match the model's result for the current host table, cached Specs must be writable again; every C03 row additionally checks that Apply leaves the edits passed in untouched.",
+      EDIT_NOTE, "TLA+ spec EditsInject histories (TLC exhaustive + simulate) replayed into the real Cache with before/after images", "5 C14", "edits")
+
 ENGINES = [
+ {"name": "edits", "path": "spec/Edits.tla spec/EditsApply.tla spec/EditsInject.tla harness/editsreplay.go harness/injectreplay.go", "serves_properties": ["C02", "C03", "C14"],
+  "kind_free_text": "TLA+ oracle for container edits and injection, enumerated by TLC, replayed into the real code with real device nodes"},
  {"name": "cacheseq", "path": "spec/CacheSeq.tla spec/Resolve.tla spec/MCCacheSeq.tla harness/cachereplay.go", "serves_properties": ["C01", "C04", "C13", "C16"],
   "kind_free_text": "TLA+ state machine of the manual-refresh cache, TLC exhaustive + simulate, behaviours replayed into the real cdi.Cache"},
 ]
